@@ -154,6 +154,13 @@ func main() {
 		}
 		var cases []*Case
 		for i := 0; i < n && err == nil; i++ {
+			if hangs.Load() > 40 {
+				rep.Note("stopped after %d cases: more than 40 exchanges did not finish", i)
+				if len(cases) > 0 {
+					err = evalCases(cases, o, rep)
+				}
+				break
+			}
 			c := genCase(r.Fork(uint64(i)), o.Search)
 			cases = append(cases, &c)
 			if len(cases) == 500 || i == n-1 {
